@@ -40,6 +40,10 @@ var c09Texts = []string{"", "m1", "bad signature", "x"}
 func c09Reply(r *common.Rand, q *c09Req) *mMsg {
 	if q.count {
 		m := &mMsg{T: "count", Sub: q.id, C: uint64(r.Intn(5))}
+		if r.Chance(8) {
+			// counts are uint64: the upper half of the range is lost by a signed comparison
+			m.C = common.Pick(r, []uint64{1<<63 - 1, 1 << 63, 1<<63 + 10, 1<<64 - 2, 1<<64 - 1})
+		}
 		switch r.Intn(4) {
 		case 0:
 			m.Approx = common.Ptr(true)
@@ -56,6 +60,10 @@ func c09Reply(r *common.Rand, q *c09Req) *mMsg {
 
 func c09Generate(r *common.Rand, overlap bool) mCase {
 	n := []int{2, 2, 2, 3, 3, 4}[r.Intn(6)]
+	if r.Chance(4) {
+		// many children (slices.SortFunc and friends change algorithm above 12 elements)
+		n = 13 + r.Intn(4)
+	}
 	return c09GenerateN(r, overlap, n)
 }
 
